@@ -220,6 +220,9 @@ class Safe:
                 obs.append(rng(f"{A} {op} {B}"))
             elif op in ("/", "%"):
                 obs.append(f"({b} ≠ 0)")
+                if not (self.tr.is_lit(r) and r[0] != "unary"):
+                    # the one quotient that does not fit: MIN / -1 (Rust panics with overflow, also for `%`)
+                    obs.append(f"(¬({A} = -(2:Int)^{w-1} ∧ {B} = -1))")
             elif op == "<<":
                 obs.append(rng(f"{A} * 2 ^ {B}"))
         return obs
